@@ -560,7 +560,7 @@ backtracking search is that of a descent direction (`≤ 0`) and the search ends
 set (a trial was accepted, or it gave up and went back to the step length 0), the objective at the
 point the function is left at is not above the objective at the parameters the search started from.
 (Without the flag — the search stopped by its cap of 10000 steps — it reports its last trial; for a
-positive slope the acceptance test accepts an increase: see `BfgsWitness`.) -/
+positive slope the acceptance test accepts an increase: see `BfgsExample` in `OptimLineOpt.lean`.) -/
 theorem lineSearch_descent (fuel : Nat) (fn fn' : Fn ℝ) (parameters pl : PList ℝ) (xi gradient xi' : List ℝ) (k : Nat)
     (hg : Good parameters) (hslope : dotFrom (0 : ℝ) xi gradient ≤ 0)
     (h : lineSearch (Fn.iface obj D cap) fuel fn parameters xi gradient = .ok (fn', pl, xi', k))
